@@ -259,6 +259,22 @@ def rule_breakers():
             add('break-outside-loop', 'break')
         add('assign-to-macro', 'assign m 3', 'define m 5 ')
         add('macro-redefined', 'define m 6', 'define m 5 ')
+        # every other way of giving a macro a new meaning or value
+        if cname != 'routine':
+            add('macro-redefined-as-routine', 'define m begin on all end', 'define m 5 ')
+            add('macro-redefined-as-routine', 'define m with p on all', 'define m 5 ')
+        for body in ('repeat with m from 1 to 3 on all', 'repeat 2 with m cycle on all', 'repeat all as m on m',
+                     'repeat group as m on group m', 'repeat in "a" as l with m from 1 to 2 on l', 'get "a" assign m hue'):
+            add('assign-to-macro-by-loop', body, 'define m 5 ')
+        # a variable that does not exist before the loop, read in the loop's own header
+        for body in ('repeat with nv from nv to 3 on all', 'repeat with nv from 1 to nv on all',
+                     'repeat 2 with nv cycle nv on all', 'repeat nv with nv from 1 to 3 on all'):
+            add('undefined-name-in-own-loop-header', body)
+        # headers with a part missing
+        for body in ('repeat with i in "a" and "b" on all', 'repeat in "a" and "b" on all', 'repeat all on all',
+                     'repeat with i on all', 'repeat with i from 1 on all', 'stage begin end',
+                     'set "m" begin stage begin end end'):
+            add('incomplete-construct', body)
         if cname != 'routine':
             add('routine-redefined', 'define g on all', 'define g off all ')
         for pos, body in [('register', 'hue nosuch'), ('assign', 'assign y nosuch'), ('argument', 'f nosuch'),
@@ -302,6 +318,10 @@ def rule_breakers():
     out.append(('missing-end/eof', 'if 1 begin on all'))
     out.append(('missing-end/eof', 'repeat 2 begin on all'))
     out.append(('missing-end/eof', 'set "m" begin stage row 1'))
+    # an unfinished statement at the very end, after a macro named like the text of the end-of-file token
+    for last in ('define a', 'assign a', 'hue', 'print [', 'repeat', 'time at'):
+        out.append(('missing-value/eof', 'define eof 5 ' + last))
+        out.append(('missing-value/eof', 'assign eof 5 ' + last))
     return out
 
 
